@@ -186,7 +186,7 @@ Definition shrink_length (buf : bytes) (shrink : N) : res bytes :=
 
 (* replace the last byte of a buffer: buf[len(buf)-1] = x  (panic on an empty buffer) *)
 Definition set_last (b : bytes) (x : N) : res bytes :=
-  match rev b with [] => Panic | _ :: pre => Ok (rev pre ++ [x]) end.
+  match b with [] => Panic | _ => Ok (removelast b ++ [x]) end.
 Fixpoint set_nth {A} (l : list A) (i : nat) (x : A) : option (list A) :=
   match l, i with
   | [], _ => None
